@@ -89,7 +89,6 @@ Theorem C03_interp_depth_bounded : forall src st,
   reachable src st -> length (s_parens st) <= Scanner.INTERPOLATION_DEPTH_MAX.
 Proof. exact interp_depth_bounded. Qed.
 
-(*TMP-BEGIN
 (* ---------- the parser model: total, and a first error is located ---------- *)
 Theorem C03_parse_total : forall src,
   (exists p, parse_source src = POk p) \/
@@ -103,7 +102,6 @@ Proof. exact first_error_has_line_tokens. Qed.
 Theorem C03_source_error_has_line : forall src l a m, parse_source src = PErr l a m -> (1 <= l)%N.
 Proof. exact first_error_has_line. Qed.
 
-TMP-END*)
 Print Assumptions C03_rules_known.
 Print Assumptions C03_rules_table.
 Print Assumptions C03_rules_length.
@@ -120,3 +118,6 @@ Print Assumptions C03_scan_all_length_bound.
 Print Assumptions C03_scan_all_lines.
 Print Assumptions C03_scan_no_bad_slice.
 Print Assumptions C03_interp_depth_bounded.
+Print Assumptions C03_parse_total.
+Print Assumptions C03_first_error_has_line.
+Print Assumptions C03_source_error_has_line.
